@@ -31,3 +31,29 @@ Section LisSpec.
     | _ => true
     end.
 End LisSpec.
+
+(* The documented contract of slices.BinarySearchFunc(x, target, cmp) (Go standard library):
+   "The slice must be sorted in increasing order, where increasing is defined by cmp.  cmp should
+   return 0 if the slice element matches the target, a negative number if the slice element
+   precedes the target, or a positive number if the slice element follows the target.  cmp must
+   implement the same ordering as the slice, such that if cmp(a, t) < 0 and cmp(b, t) >= 0, then a
+   must precede b in the slice."  It "returns the earliest position where target is found, or the
+   position where target would appear in the sort order".
+   Stated on ks = [cmp(x[0],target); cmp(x[1],target); ...]: *)
+Local Open Scope Z_scope.
+
+(* number of leading negative entries = the smallest index whose entry is >= 0 (length if none) *)
+Fixpoint first_nonneg (ks : list Z) : nat :=
+  match ks with
+  | k :: ks' => if k <? 0 then S (first_nonneg ks') else O
+  | [] => O
+  end.
+
+Definition bsf_sorted (ks : list Z) : Prop :=
+  forall a b ka kb, nth_error ks a = Some ka -> nth_error ks b = Some kb ->
+                    ka < 0 -> 0 <= kb -> (a < b)%nat.
+
+(* [impl] returns (does not panic) the documented position whenever the precondition holds; on
+   other inputs nothing is required of it *)
+Definition bsf_meets_contract (impl : list Z -> option Z) : Prop :=
+  forall ks, bsf_sorted ks -> impl ks = Some (Z.of_nat (first_nonneg ks)).
